@@ -15,7 +15,7 @@ NOTE = ('Bounded: geometries, lengths and parameter ranges as stated in the evid
 
 CLAIMED = {
     'C05': ('4 C05', 'Every path of the cursor-motion functions and of csi_dispatch for the motion finals is decided by z3 '
-            'against closed-form clamping rules with the geometry itself symbolic (1..=140 x 1..=40), so one query covers '
+            'against closed-form clamping rules with the geometry itself symbolic (1..=300 x 1..=300), so one query covers '
             'every (geometry, cursor, margins, DECOM, parameter) combination inside the bounds; the same finals are also run end '
             'to end through Parser<Screen> with symbolic parameter digits (an omitted number arrives as 0), also right after an '
             'aborted or skipped CSI.'),
@@ -59,7 +59,7 @@ CLAIMED = {
             'what was visible, so hidden cells/rows that reappear on growth are solver witnesses; the DECCOLM 132-column round '
             'trip incl. a stale remembered width and from screens of 133 and 256 (thorough 131..512) columns; remote '
             'sizes around the 8-bit boundary, one dimension at a time.'),
-    'C18': ('4 C18', 'HT/HTS/TBC and the default stops decided on a symbolic width 1..=140 with up to three symbolic stops '
+    'C18': ('4 C18', 'HT/HTS/TBC and the default stops decided on a symbolic width 1..=300 with up to three symbolic stops '
             '(stale stops beyond the width included); the sort and scan of tab() are executed symbolically; resize leaves '
             'the stop set untouched.'),
     'C08': ('4 C08', 'select_graphic_rendition (API and CSI m) with symbolic codes against an independent left-to-right '
